@@ -545,8 +545,10 @@ class Oracles:
         # spawners that died of an exception of the user's function / iterable and have not been through a flush or close yet
         dead_spawners = [r for r in pm.reqs if r.spawner is not None and r.spawner.done() and not r.spawner.cancelled()
                          and r.spawner.exception() is not None and self.is_injected(pm, r.spawner.exception()) and not getattr(r, "meta_exc_seen", False)]
-        if getattr(pm, "close_active", 0):
-            dead_spawners = []      # a gather_and_close() in progress awaits the meta tasks itself and may have taken them already
+        if getattr(pm, "close_active", 0) or self.flushes_active >= 1:
+            # a gather_and_close() or another flush() in progress takes meta tasks itself (a flush empties the set of cancelled meta
+            # tasks when its first gather is over - including what a cancel_all() moved there meanwhile)
+            dead_spawners = []
         for r in pm.reqs:
             if r.spawner is not None and r.spawner.done():
                 r.meta_exc_seen = True  # type: ignore[attr-defined]   (this flush pops them at once; a later one finds nothing)
